@@ -422,7 +422,11 @@ def coverage(ctx):
             continue
         p = ctx.path("coverage_%d.ndjson" % fx)
         with open(p, "w") as f:
-            f.write(open(ctx.tab[tag]).read())
+            for ln in open(ctx.tab[tag]):
+                if '"?"' in ln:
+                    ctx.spec_drift("ArchTwins", "dispatch table row with an implementation the harness cannot name (not bound, left out of the coverage guard): " + ln.strip())
+                    continue
+                f.write(ln)
             for (impl, x), calls in sorted(REACH.items()):
                 if x == fx:
                     f.write(json.dumps(dict(k="reach", impl=impl, fx=fx, calls=calls)) + "\n")
@@ -479,7 +483,7 @@ def run(ctx):
                        "integer kernels with structured arguments (NSQ, delayed-decision NSQ, LTP codebook search, VAD, Burg) are compared on the arguments the codec passes "
                        "during the replayed histories, not on synthetic ones",
                        "float tolerance: |SIMD - C| <= (2n+4) * 2^-24 * sum|terms| (worst-case reassociation bound; x8 for the in-place comb filter); PVQ search: K pulses and energy exact, "
-                       "match with the input at most 0.1 lower than the portable vector's (calibrated, R3: worst observed 0.022); no tolerance is asserted on float-build PCM between levels that differ in float kernels "
+                       "match with the input at most 0.1 lower than the portable vector's (calibrated, R3: worst observed 0.032 over the thorough tier); no tolerance is asserted on float-build PCM between levels that differ in float kernels "
                        "(the measured maximum is recorded)"]
     if ctx.replay:
         return replay(ctx)
